@@ -124,7 +124,11 @@ where
                         break_out = true;
                         Err(Error::Interrupted)
                     }
-                    Ok(Err(err)) => Err(err),
+                    Ok(Err(err)) => {
+                        // The stream to the child can't be trusted anymore.
+                        break_out = true;
+                        Err(err)
+                    }
                     Err(_timeout) => {
                         break_out = true;
                         Err(Error::Timeout(exec_time))
